@@ -8,6 +8,8 @@ A spec is a nested tuple  (name, kind, payload, children)  where children are sp
   kind 'list'   : returns [child calls...] (a nested list of lazy calls)
   kind 'catch'  : returns catch(child0, ValueError, recover) (recover returns ('recovered', msg))
   kind 'seq'    : returns seq([children])
+  kind 'catchthen': returns seq([catch(child0, ValueError, recover), child0]) -- one expression object, demanded twice
+  kind 'catchany': returns catch(child0, Exception, recover)
   kind 'all'    : returns catch_all([children], cls, rec): payload 0 = no recover (first error BY POSITION is re-raised
                   once every child settled), 1 = recover_all on ValueError (all errors match: recover_all gets the list of
                   values and errors), 2 = recover_all on KeyError (no error matches: first error by position re-raised)
@@ -60,6 +62,13 @@ def node(spec):
         return catch(calls[0], ValueError, recover)
     if kind == "seq":
         return seq(calls)
+    if kind == "catchthen":
+        # the SAME expression demanded twice by one job, the second demand staged after the first one settled:
+        # first inside a catch (so the job survives a failure), then bare
+        return seq([catch(calls[0], ValueError, recover), calls[0]])
+    if kind == "catchany":
+        # catches every Exception (e.g. the SchedulerError of a job rejected before it reaches an executor)
+        return catch(calls[0], Exception, recover)
     if kind == "all":
         if payload == 0:
             return catch_all(calls)
